@@ -7,6 +7,10 @@ From Coq Require Import QArith List Bool Arith String.
 From Ropt Require Import Base.Num Base.ListX Gen.Generated Model.ScipyProblem Model.ScipyCache.
 Import ListNotations.
 
+Definition item := (op * nat * list (inv * evcall))%type.
+    (* one request as observed: the request, index into k_vals of the returned value, the observed
+       (callback invocation, evaluator call) pairs *)
+
 Record case := {
   k_problem : problem;
   k_spec : bool;
@@ -16,9 +20,11 @@ Record case := {
   k_X : list (list Q);             (* coordinates (free variables) of pool point i *)
   k_S : Q;                         (* largest magnitude, for the tolerance *)
   k_vals : list ret;               (* the distinct values returned by the real callables *)
-  k_seqs : list (list (op * nat * list (inv * evcall)))
-      (* per request: the request, index into k_vals of the returned value, the observed
-         (callback invocation, evaluator call) pairs *)
+  k_items : list item;             (* the distinct observed requests (interned) *)
+  k_chain : bool;                  (* true: the sequences ran one after the other on ONE plug-in object
+                                      and ONE EnsembleEvaluator (start() called once per sequence);
+                                      false: a fresh plug-in + evaluator per sequence *)
+  k_seqs : list (list nat)         (* per sequence: indices into k_items *)
 }.
 
 Definition vec_close (S : Q) (a b : list Q) : bool := forallb2 (close S) a b.
@@ -42,9 +48,8 @@ Definition ev_eqb (a b : evcall) : bool :=
 Definition call_eqb (a b : inv * evcall) : bool := inv_eqb (fst a) (fst b) && ev_eqb (snd a) (snd b).
 
 Definition check_seq (Fp : nat -> fval) (Gp : nat -> gval) (Xp : nat -> list Q) (c : config)
-    (S : Q) (vals : list ret) (seq : list (op * nat * list (inv * evcall))) : bool :=
-  let model := run_ev Fp Gp Xp c empty None (map (fun t => fst (fst t)) seq) in
-  forallb2 (fun (t : op * nat * list (inv * evcall)) (m : ret * list (inv * evcall)) =>
+    (S : Q) (vals : list ret) (seq : list item) (model : list (ret * list (inv * evcall))) : bool :=
+  forallb2 (fun (t : item) (m : ret * list (inv * evcall)) =>
               let '(o, vi, calls) := t in
               match nth_error vals vi with
               | Some v =>
@@ -52,19 +57,43 @@ Definition check_seq (Fp : nat -> fval) (Gp : nat -> gval) (Xp : nat -> list Q) 
                   ret_close S v (fst m) && list_eqb call_eqb calls (snd m) &&
                   (* the property's clauses evaluated directly on the observation *)
                   ret_close S v (expected Fp Gp Xp c o) &&
-                  forallb (fun ce => let '(_, rf, rg) := fst ce in
+                  forallb (fun ce => let '(x, rf, rg) := fst ce in
+                                     pt_eqb x (op_pt o) &&
                                      negb (c_nograd c && rg) && negb (c_split c && rf && rg)) calls
               | None => false
               end) seq model.
 
+Fixpoint resolve (items : list item) (seq : list nat) : option (list item) :=
+  match seq with
+  | [] => Some []
+  | i :: t => match nth_error items i, resolve items t with
+              | Some x, Some l => Some (x :: l)
+              | _, _ => None
+              end
+  end.
+Fixpoint resolve_all (items : list item) (seqs : list (list nat)) : option (list (list item)) :=
+  match seqs with
+  | [] => Some []
+  | s :: t => match resolve items s, resolve_all items t with
+              | Some x, Some l => Some (x :: l)
+              | _, _ => None
+              end
+  end.
+Definition ops_of (seq : list item) : list op := map (fun t => fst (fst t)) seq.
+
 Definition check_case (k : case) : bool :=
-  match make_config (k_problem k) (k_spec k) (k_split k) with
-  | None => false
-  | Some c =>
+  match make_config (k_problem k) (k_spec k) (k_split k), resolve_all (k_items k) (k_seqs k) with
+  | Some c, Some seqs =>
       let Fp := fun i => nth i (k_F k) (0, []) in
       let Gp := fun i => nth i (k_G k) ([], []) in
       let Xp := fun i => nth i (k_X k) [] in
-      forallb (check_seq Fp Gp Xp c (k_S k) (k_vals k)) (k_seqs k)
+      if k_chain k then
+        forallb2 (check_seq Fp Gp Xp c (k_S k) (k_vals k)) seqs
+                 (run_chain Fp Gp Xp c empty None (map ops_of seqs))
+      else
+        forallb (fun seq => check_seq Fp Gp Xp c (k_S k) (k_vals k) seq
+                              (run_ev Fp Gp Xp c empty None (ops_of seq))) seqs
+  | _, _ => false
   end.
 
 (* short constructors for the harness *)
